@@ -56,7 +56,8 @@ FRAGS = {
     "ref_oneof": {"$ref": "#/definitions/PQ"}, "minprops2": {"type": "object", "minProperties": 2}, "maxprops1": {"type": "object", "maxProperties": 1},
 }
 QUICK = ["a_opt", "a_req", "b_req", "ab_closed", "ref_base", "ref_closed", "extra_req", "b_enum_xy", "b_enum_yz", "str_enum_ab", "enum_bc"]
-TRIPLE = ["a_opt", "a_req", "b_req", "ab_closed", "ref_base", "extra_req", "b_enum_xy", "b_enum_yz", "ap_str", "oneof_pq"]
+TRIPLE = ["a_opt", "a_req", "a_str", "b_req", "ab_closed", "ref_base", "extra_req", "b_enum_xy", "b_enum_yz", "ap_str", "oneof_pq", "req_a_only"]
+TRIPLE_QUICK = ["a_opt", "a_str", "a_req", "b_req", "b_enum_xy", "b_enum_yz"]   # conflicting / compatible declarations of one member, then a third operand that mentions it
 
 
 # leaf fragments lifted to ONE optional property p of two object branches: allOf[{p: A}, {p: B}] exercises the recursive (member-level) merge
@@ -91,8 +92,7 @@ def lifted_cases(tier):
 def cases(tier, seed):
     names = list(FRAGS)
     combos = list(itertools.permutations(names, 2))
-    if tier != "quick":
-        combos += list(itertools.permutations(TRIPLE, 3))
+    combos += list(itertools.permutations(TRIPLE if tier != "quick" else TRIPLE_QUICK, 3))
     out = lifted_cases(tier)
     for combo in combos:
         doc = {"definitions": dict(DEFS, T={"allOf": [FRAGS[n] for n in combo]})}
